@@ -28,14 +28,14 @@ impl Semaphore {
             (r matches Err(TryAcquireError::Closed)) <==> old(self).closed,
     { unimplemented!() }
 
-    // `try_acquire_many(0)`: the idiom used to test for closedness
+    // try_acquire_many(n): all or nothing (n == 0 is the idiom used to test for closedness)
     #[verifier::external_body]
     pub fn try_acquire_many(&mut self, n: u32) -> (r: Result<SemaphorePermit, TryAcquireError>)
-        requires n == 0
         ensures
-            *final(self) == *old(self),
+            r.is_ok() <==> (!old(self).closed && old(self).permits >= n),
+            r matches Ok(p) ==> final(self).permits == old(self).permits - n && final(self).closed == old(self).closed && p.n == n,
+            r.is_err() ==> *final(self) == *old(self),
             (r matches Err(TryAcquireError::Closed)) <==> old(self).closed,
-            r matches Ok(p) ==> p.n == 0,
     { unimplemented!() }
 
     // R4 (eager model of a passed-on future, see DESIGN.md §4): the acquisition happens atomically here iff the
@@ -229,3 +229,8 @@ pub mod num_cpus {
         ensures 1 <= r <= 65536
     { unimplemented!() }
 }
+
+// usize::saturating_sub (std, A5)
+pub fn vx_saturating_sub(a: usize, b: usize) -> (r: usize)
+    ensures r == (if a >= b { a - b } else { 0 })
+{ if a >= b { a - b } else { 0 } }
